@@ -14,21 +14,22 @@ TRUTHY = " Accessor level: the nodata value is tested with `is None`, never for 
          "stored on the accessor besides `_obj` (R-STATELESS: xarray caches accessors per object)."
 EXTRA = {
     "C02": TRUTHY + " The smoothers never store into their input series (R-READONLY).",
-    "C03": TRUTHY, "C04": TRUTHY, "C05": TRUTHY + " The GCV kernels never store into their input series (R-READONLY).",
+    "C03": TRUTHY, "C04": TRUTHY, "C05": TRUTHY + " The GCV kernels never store into their input series (R-READONLY); no placeholder at a masked cell can reach a GCV score, a robust weight, the reported lambda or the band (R-TAINT shared with C02).",
     "C06": " Every solver weight vanishes outside the validity mask (R-MASK: the sanitised placeholder does not shift with the series); ws2d is one straight-line algorithm; "
            "the asymmetric fixed-lambda smoother re-weights until the curve itself stops changing (IRLS descriptor shared with C03); the 3-d V-curve driver takes the lag-1 correlation from the raw series with its nodata marker.",
     "C07": TRUTHY + " The 90%-zeros test compares the ratio of counts itself with 0.9 (no float arithmetic on the compared side).",
     "C08": TRUTHY + " The 90%-zeros test compares the ratio itself with 0.9." + " Every pixel/group iteration of the SPI drivers leaves a defined value in the output (nodata-prefilled or must-write per iteration); inside the cell loop arrays are addressed at the current cell only (no neighbouring cell enters an index); only cells of the index buffer that differ from nodata are scaled.",
     "C09": TRUTHY + " Explicit casts of kernel arguments equal the element type the kernel declares.",
     "C10": TRUTHY + " The kernel without nodata handling is selected exactly when the nodata attribute is None.",
+    "C11": " Ordering methods derived by functools.total_ordering are accepted: the written root method and __eq__ must satisfy the sibling obligations (same coerced operand types).",
     "C12": " No gufunc signature declares a contiguous layout (R-LAYOUT: strided views are passed to the inner loops).",
     "C13": " No gufunc signature declares a contiguous layout (NB-LAYOUT); prange iterations share no written state (NB-PRANGE); NB-PROMOTE also covers accumulators that start from an int literal and take narrow-integer operands.",
     "C15": TRUTHY + " The time-first arm labels its result with the remaining dims in order and every coordinate but time.",
     "C16": " The NaN->nodata substitution reaches both kernel sites unconditionally; the result is labelled (first dim and its coordinate, zone ids, [mean, valid]); R-STATELESS.",
     "C17": TRUTHY + " mean_grp accessor: group ids are converted to the kernel's declared element type, num_groups is the number of distinct ids, label length is validated; "
-           "the value scattered for a group is defined in that group's own iteration (R-LOOPCARRY); rolling_sum: the cell (or the scalar accumulator stored into it) is reset per position and only ever added to.",
-    "C19": " begin/end labels are tested with `is None`, never for truth (0 is a legitimate label) and looked up exactly as given; R-STATELESS (no cached index).",
-    "C20": " The gufunc signature declares arbitrary strides for every array (R-LAYOUT); ws2d is one straight-line algorithm; R-STATELESS.",
+           "the value scattered for a group is defined in that group's own iteration (R-LOOPCARRY); rolling_sum: the cell (or the scalar accumulator stored into it) is reset per position and only ever added to; typed IR (all declared signatures, njit helpers followed): no computed value is stored into an integer element narrower than 64 bit (R-ACC).",
+    "C19": " begin/end labels are tested with `is None`, never for truth (0 is a legitimate label) and looked up exactly as given; an axis position obtained from get_indexer (through helpers) is never tested for truth (position 0 is the first step); R-STATELESS (no cached index).",
+    "C20": " The gufunc signature declares arbitrary strides for every array (R-LAYOUT); ws2d is one straight-line algorithm; R-STATELESS; typed IR: for every declared signature the ws2d solve of the daily series returns a float64 array (R-ACC).",
 }
 checks = []
 for pid in props:
